@@ -368,6 +368,14 @@ func ammoCase(r *rand.Rand) string {
 	default: // raw random bytes
 		data = randBytes(r, r.Intn(60))
 	}
+	if r.Intn(60) == 0 { // a line longer than the scanners' buffers (bufio.MaxScanTokenSize) somewhere in the file
+		lines := strings.SplitAfter(string(data), "\n")
+		i := r.Intn(len(lines))
+		long := strings.Repeat([]string{"a", "{\"tag\":\"x\"} ", "9", " "}[r.Intn(4)], 1)
+		long = strings.Repeat(long, 70000/len(long)+1) + "\n"
+		lines = append(lines[:i], append([]string{long}, lines[i:]...)...)
+		data = []byte(strings.Join(lines, ""))
+	}
 	pre := 0
 	if r.Intn(5) == 0 {
 		pre = 1
@@ -605,13 +613,63 @@ func randIntCase(r *rand.Rand) string {
 	}
 }
 
+func weightsCase(r *rand.Rand) string {
+	kind := []string{"http", "grpc"}[r.Intn(2)]
+	format := []string{"yaml", "hcl"}[r.Intn(2)]
+	n := 1 + r.Intn(4)
+	if r.Intn(8) == 0 {
+		n = 5 + r.Intn(4)
+	}
+	ws := make([]string, n)
+	mult := 1
+	if r.Intn(3) == 0 {
+		mult = []int{2, 3, 5, 6, 10}[r.Intn(5)]
+	}
+	neg := r.Intn(3) == 0
+	for i := range ws {
+		switch x := r.Intn(20); {
+		case x == 0:
+			ws[i] = "-"
+		case x == 1:
+			ws[i] = "0"
+		case x < 5 && neg:
+			ws[i] = strconv.Itoa(-(1 + r.Intn(9)) * mult)
+		case x == 5 && r.Intn(10) == 0:
+			ws[i] = []string{"100000", "-100000", "9223372036854775807", "-9223372036854775808"}[r.Intn(4)]
+		default:
+			ws[i] = strconv.Itoa((1 + r.Intn(12)) * mult)
+		}
+	}
+	return fmt.Sprintf("k=scnw kind=%s fmt=%s w=%s", kind, format, strings.Join(ws, ","))
+}
+
+func randStringCase(r *rand.Rand) string {
+	via := "func"
+	if r.Intn(4) == 0 {
+		via = "vs"
+	}
+	ns := []string{"1", "5", "12", "0", "-1", "-5", "-9223372036854775808", "300", "x", "1.5", "", " 7 ", "+3", "-0", "99999999999999999999", "2000000"}
+	letters := []string{"", "ab", "x", "0123456789", "éz"}[r.Intn(5)]
+	args := []string{"1", "1", "2", "2", "0"}[r.Intn(5)]
+	var n string
+	switch x := r.Intn(10); {
+	case x < 4:
+		n = strconv.Itoa(r.Intn(40))
+	case x < 6:
+		n = strconv.Itoa(-1 - r.Intn(40))
+	default:
+		n = ns[r.Intn(len(ns))]
+	}
+	return fmt.Sprintf("k=rs via=%s args=%s n=%s letters=%s", via, args, hex.EncodeToString([]byte(n)), hex.EncodeToString([]byte(letters)))
+}
+
 var cliShapes = []string{"absent", "null", "scalar", "str", "map", "list:", "list:m", "list:s", "list:ms", "list:l", "list:n", "list:d", "list:md", "list:mm"}
 
 func gen(r *rand.Rand, tier string) []string {
-	n := 4500
-	nCli := 6
+	n := 16000
+	nCli := 8
 	if tier == "thorough" {
-		n = 120000
+		n = 300000
 		nCli = 14
 	}
 	var out []string
@@ -629,10 +687,20 @@ func gen(r *rand.Rand, tier string) []string {
 			out = append(out, fmt.Sprintf("k=mp n=%d calls=%d path=%s", []int{0, 0, 1, 2, 3, 5}[r.Intn(6)], 1+r.Intn(4), hex.EncodeToString([]byte(randMpPath(r)))))
 		case x < 87:
 			out = append(out, "k=tag hex="+hex.EncodeToString([]byte(randTagString(r))))
-		case x < 94:
+		case x < 93:
 			out = append(out, scnCase(r))
-		case x < 97:
+		case x < 95:
 			out = append(out, scnRawCase(r))
+		case x < 97:
+			out = append(out, weightsCase(r))
+		case x < 98:
+			if r.Intn(4) == 0 {
+				kind := []string{"http", "grpc"}[r.Intn(2)]
+				wh := map[string][]string{"http": {"vs", "post", "req", "scn", "tmpl", "prep"}, "grpc": {"vs", "post", "pre", "req", "scn"}}[kind]
+				out = append(out, fmt.Sprintf("k=scnnull kind=%s where=%s", kind, wh[r.Intn(len(wh))]))
+			} else {
+				out = append(out, randStringCase(r))
+			}
 		default:
 			out = append(out, randIntCase(r))
 		}
